@@ -431,7 +431,8 @@ func (f *fx) callSiteSpecs(ct *callTarget, args []Val, pos token.Pos) {
 	sk := fmt.Sprintf("callsite:%s@%d", ct.key, pos)
 	n := f.siteOrdinal(ct.key, pos)
 	if n < 0 {
-		n = 1000 + f.ordinal("callsite-dyn:"+ct.key)
+		// a call inside an inlined callee (e.g. a deferred method): no ordinal in this function's own text
+		n = 1000
 	}
 	visit := f.ordinal(sk + "#visit")
 	where, txt := f.srcLine(pos)
@@ -439,6 +440,10 @@ func (f *fx) callSiteSpecs(ct *callTarget, args []Val, pos token.Pos) {
 		if cs.Which >= 0 && cs.Which != n {
 			continue
 		}
+		if f.top.matchedSites == nil {
+			f.top.matchedSites = map[*CallSiteSpec]bool{}
+		}
+		f.top.matchedSites[cs] = true
 		env := f.callEnv(ct, args, f.cur, f.cur, nil)
 		env.callee = map[string]bool{}
 		for k := range env.vars {
@@ -999,6 +1004,10 @@ func (f *fx) contractCall(ct *callTarget, args []Val, pos token.Pos) Val {
 func refOf(t Term) Term {
 	if t.Sort == "Slice" {
 		return T("Int", "(sl_ref %s)", t.S)
+	}
+	if t.Sort == "Iface" {
+		// the payload of an interface value holding a pointer
+		return T("Int", "(ival %s)", t.S)
 	}
 	return t
 }
